@@ -1,6 +1,6 @@
 //! C07: ReplicatedValue::merge — correspondence cases for the Coq model and the
 //! three laws evaluated directly on the implementation.
-use crate::util::*;
+use vharness::util::*;
 use rand::Rng as _;
 use redis_sim::redis::SDS;
 use redis_sim::replication::lattice::{GCounter, GSet, ORSet, PNCounter, ReplicaId, VectorClock};
@@ -236,7 +236,9 @@ pub fn gen_triple(rng: &mut Rng) -> (ReplicatedValue, ReplicatedValue, Replicate
     }
 }
 
-pub fn run(args: &Args) {
+fn main() {
+    let a: Vec<String> = std::env::args().collect();
+    let args = &Args::parse(&a[1..]);
     let mut out = Out::new(&args.out, "C07", args.shards, HEADER);
     out.nontrivial_rule = "triples (a,b,c) drawn from the values three replicas of one key hold while performing local operations (real ShardReplicaState API for LWW/hash, direct CRDT ops for counters/sets) and delivering deltas to each other in random order (time ties across replicas included); non-trivial = a,b,c pairwise different in obs; distinct by canonical text of the triple".into();
     let range: Vec<u64> = match args.only { Some(i) => vec![i], None => (0..args.n).collect() };
